@@ -215,10 +215,10 @@ func genFunctionsOpt(r *rand.Rand, nf int, table map[int]string, allowHuge bool)
 				continue
 			}
 			s := site{Num: pickNum(), Gap: r.Intn(5)}
-			switch r.Intn(40) {
-			case 0, 1, 2: // the number is loaded far ahead of the trap (the search goes back through the whole function)
+			switch r.Intn(200) {
+			case 0, 1, 2, 3, 4: // the number is loaded far ahead of the trap (the search goes back through the whole function)
 				s.Gap = []int{16, 63, 64, 65, 126, 127, 128, 129, 255, 256, 257, 511, 512, 513}[r.Intn(14)]
-			case 3:
+			case 5:
 				if allowHuge {
 					s.Gap = []int{1000, 1023, 1024, 1025, 4095, 4096, 4097, 5000}[r.Intn(8)]
 				}
@@ -427,6 +427,8 @@ type c16Case struct {
 	path     string
 	// delivery: the worker also hands the same text over through a "fifo" or a "pipe" and compares
 	delivery string
+	// size, nFuncs: kept when the text itself is dropped from memory after it was written to its file
+	size, nFuncs int
 }
 
 func c16() {
@@ -447,7 +449,29 @@ func c16() {
 	defer os.RemoveAll(dir)
 
 	var cases []*c16Case
-	add := func(c *c16Case) int { c.prefixOf = -1; cases = append(cases, c); return len(cases) - 1 }
+	// every input is written to its file when it is added and then dropped from memory (a thorough run has some 300 000 texts)
+	var sampleHead []string
+	add := func(c *c16Case) int {
+		c.prefixOf = -1
+		i := len(cases)
+		cases = append(cases, c)
+		c.path = filepath.Join(dir, fmt.Sprintf("in-%d.txt", i))
+		if !c.isDir && (c.arch == "x86_64" || c.arch == "i386") && i%5 == 2 {
+			c.delivery = []string{"fifo", "pipe"}[(i/5)%2]
+		}
+		if c.isDir {
+			os.MkdirAll(c.path, 0o755)
+		} else if err := os.WriteFile(c.path, c.text, 0o644); err != nil {
+			run.Inconclusive("cannot write input: " + err.Error())
+		}
+		c.size, c.nFuncs = len(c.text), strings.Count(string(c.text), "TEXT ")
+		if i == 0 {
+			sampleHead = strings.Split(string(c.text), "\n")
+			sampleHead = sampleHead[:min(8, len(sampleHead))]
+		}
+		c.text = nil
+		return i
+	}
 	r0 := caseRand(run, 0)
 
 	// (0) calls for other architectures interleaved with the judged ones (same process): they must not influence
@@ -560,16 +584,7 @@ func c16() {
 	// write inputs, run workers
 	nWorkers := 16
 	lists := make([][]int, nWorkers)
-	for i, c := range cases {
-		c.path = filepath.Join(dir, fmt.Sprintf("in-%d.txt", i))
-		if !c.isDir && (c.arch == "x86_64" || c.arch == "i386") && i%5 == 2 {
-			c.delivery = []string{"fifo", "pipe"}[(i/5)%2]
-		}
-		if c.isDir {
-			os.MkdirAll(c.path, 0o755)
-		} else if err := os.WriteFile(c.path, c.text, 0o644); err != nil {
-			run.Inconclusive("cannot write input: " + err.Error())
-		}
+	for i := range cases {
 		lists[i%nWorkers] = append(lists[i%nWorkers], i)
 	}
 	results := make([]*c16Result, len(cases))
@@ -665,17 +680,20 @@ func c16() {
 		}
 		kinds[c.kind]++
 		run.Count("texts", 1)
-		replayText := string(c.text)
-		if len(replayText) > 4000 {
-			replayText = replayText[:2000] + "\n...[" + fmt.Sprint(len(replayText)) + " bytes]...\n" + replayText[len(replayText)-1000:]
-		}
-		replay := map[string]any{"check": "C16", "kind": c.kind, "arch": c.arch, "text": replayText, "is_directory": c.isDir, "result": res}
+		replay := vlib.LazyReplay(func() any {
+			tb, _ := os.ReadFile(c.path)
+			replayText := string(tb)
+			if len(replayText) > 4000 {
+				replayText = replayText[:2000] + "\n...[" + fmt.Sprint(len(replayText)) + " bytes]...\n" + replayText[len(replayText)-1000:]
+			}
+			return map[string]any{"check": "C16", "kind": c.kind, "arch": c.arch, "text": replayText, "is_directory": c.isDir, "result": res}
+		})
 		if res.Panic != "" {
 			sig := "panic:" + c.kind
 			if strings.Contains(res.Panic, "slice bounds out of range") {
 				sig = "panic-slice-bounds:" + c.kind
 			}
-			run.Violation(sig, fmt.Sprintf("%s input (%s, %d bytes): extraction does not return: %s", c.kind, c.arch, len(c.text), res.Panic), replay)
+			run.Violation(sig, fmt.Sprintf("%s input (%s, %d bytes): extraction does not return: %s", c.kind, c.arch, c.size, res.Panic), replay)
 			continue
 		}
 		if c.delivery != "" {
@@ -683,7 +701,7 @@ func c16() {
 			if strings.HasPrefix(res.DeliveryDiff, "harness: ") {
 				run.Count("delivery_not_possible", 1)
 			} else if res.DeliveryDiff != "" {
-				run.Violation("result-depends-on-delivery:"+c.delivery, fmt.Sprintf("%s input (%s, %d bytes): the same text %s", c.kind, c.arch, len(c.text), res.DeliveryDiff), replay)
+				run.Violation("result-depends-on-delivery:"+c.delivery, fmt.Sprintf("%s input (%s, %d bytes): the same text %s", c.kind, c.arch, c.size, res.DeliveryDiff), replay)
 				continue
 			}
 		}
@@ -756,10 +774,10 @@ func c16() {
 				if strings.Contains(diff, "the model has 0") {
 					sig = "site-attributed-that-is-none"
 				}
-				run.Violation(sig, fmt.Sprintf("%s listing (%s, %d functions-worth of text): %s", c.kind, c.arch, strings.Count(string(c.text), "TEXT "), diff), replay)
+				run.Violation(sig, fmt.Sprintf("%s listing (%s, %d functions-worth of text): %s", c.kind, c.arch, c.nFuncs, diff), replay)
 				continue
 			}
-			distinct[fmt.Sprint(c.arch, len(c.exp), strings.Count(string(c.text), "TEXT "))] = true
+			distinct[fmt.Sprint(c.arch, len(c.exp), c.nFuncs)] = true
 		}
 		if c.prefixOf >= 0 && results[c.prefixOf] != nil {
 			run.Count("monotonicity_pairs", 1)
@@ -777,7 +795,7 @@ func c16() {
 	c16ReadFaults(run, dir, tables)
 
 	run.Set("texts_by_kind", kinds)
-	run.Sample(2, map[string]any{"kind": "model", "arch": cases[0].arch, "expected_sites": cases[0].exp, "text_head": strings.Split(string(cases[0].text), "\n")[:min(8, len(strings.Split(string(cases[0].text), "\n")))]})
+	run.Sample(2, map[string]any{"kind": "model", "arch": cases[0].arch, "expected_sites": cases[0].exp, "text_head": sampleHead})
 	run.Sample(2, map[string]any{"kind": "hostile-line", "lines": hostile[20:30]})
 	run.Assume("the expected sites come from the site model that generated the listing, never from the text; sites of one function always carry their own number load",
 		"reported names are compared with the kernel UAPI tables of linux-libc-dev 6.1 (numbers above its range are not judged)")
